@@ -1,6 +1,7 @@
 """C10 — solving leaves the description intact and is repeatable."""
 import copy
 import random
+from fractions import Fraction as Fr
 
 import gen
 import impl
@@ -71,7 +72,7 @@ def check_case(ctx, g, ops, model=None):
             objs.append((prune, sg))
         o = impl.solve_inplace(shared, prune, limit=5.0, sg=sg)
         trace.append({"prune": prune, "reuse": reuse, "outcome": o["outcome"]})
-        results_seq.append({k: o.get(k) for k in ("outcome", "res")})
+        results_seq.append(copy.deepcopy({k: o.get(k) for k in ("outcome", "res")}))
         if o["outcome"] == "Timeout":
             ctx.count("timeout")
             return
@@ -88,6 +89,12 @@ def check_case(ctx, g, ops, model=None):
                            "transition_list_after": shared["transition_list"], "trace": trace})
             break
         c = canon_res(o)
+        if o["outcome"] == "ok":
+            # a caller may edit what it got back; this must not leak into later solves
+            for vec in o["res"][:2]:
+                for s_ in vec:
+                    if isinstance(s_, list):
+                        s_.append("<edited by the caller>")
         if prune in results and results[prune] != c:
             ctx.violation("not-repeatable", inp, {"first": results[prune][:5], "again": c[:5], "trace": trace})
             break
@@ -144,8 +151,32 @@ def example_games():
     return out
 
 
+def clock_independence(ctx):
+    """a solve that needs many thousands of sweeps returns the same thing on a machine on which every sweep
+    takes a second (the clocks of the time module are made to race inside the second solve)"""
+    for gam in (Fr(999, 1000), Fr(9995, 10000)):
+        for kind in (P1, P2):
+            g = gen.finish([1, 0, 1, 0, 0], [kind, PR, PR, PR, PR],
+                           [[("a", 1), ("b", 2)], [(Fr(1, 2), 4), (Fr(1, 2), 3)],
+                            [(gam, 2), ((1 - gam) / 2, 4), ((1 - gam) / 2, 3)], [(Fr(1), 3)], [(Fr(1), 4)]], [4],
+                           {"family": "many_sweeps"})
+            for prune in (True, False):
+                a = impl.solve(g, prune, limit=60.0, want_nodes=False)
+                with impl.racing_clock():
+                    b = impl.solve(g, prune, limit=60.0, want_nodes=False)
+                ctx.case({"game": gen.desc(g), "prune": prune, "family": "many_sweeps"}, a["outcome"] == "ok" and a["res"][4] > 4096)
+                if "Timeout" in (a["outcome"], b["outcome"]):
+                    ctx.count("timeout")
+                    continue
+                if canon_res(a) != canon_res(b):
+                    ctx.violation("not-repeatable", {"game": gen.desc(g), "prune": prune, "second_solve": "with racing clocks"},
+                                  {"first": list(canon_res(a))[:8], "again": list(canon_res(b))[:8]})
+                    return
+
+
 def run(ctx, model=None):
     ctx.extra["rule"] = RULE
+    clock_independence(ctx)
     rng = random.Random(ctx.seed * 15485863 + 10)
     seqs = op_sequences(rng, ctx.quick())
     games = []
@@ -168,6 +199,14 @@ def run(ctx, model=None):
             k += 1
     tie_games = [gen.layered_tie_game(rng) for _ in range(12 if ctx.quick() else 100)] + \
         [gen.slow_cycle_game(rng) for _ in range(4)]
+    # twins: the same transitions and final states, one state handed to the other player
+    for g0 in list(tie_games[:6]):
+        pl = list(g0["players"])
+        idx = [i for i, p in enumerate(pl) if p != PR]
+        if idx:
+            i = idx[0]
+            pl[i] = P2 if pl[i] == P1 else P1
+            tie_games.append(gen.finish(g0["rewards"], pl, gen.exact_tl(g0), g0["final_states"], {"family": "owner_twin"}))
     hashseed_stability(ctx, tie_games)
     for i, g in enumerate(games):
         unsolv = impl.solve(g, True, want_nodes=False)["outcome"] != "ok" if ctx.quick() else False
@@ -185,19 +224,26 @@ def hashseed_stability(ctx, games):
     from crlib import REPO
     prog = ("import json,sys\nsys.path.insert(0, %r)\nimport logging\nlogging.disable(logging.CRITICAL)\n"
             "from tad import StochasticGame\nout=[]\n"
-            "for g in json.load(open(sys.argv[1])):\n"
+            "gs = json.load(open(sys.argv[1]))\n"
+            "order = list(range(len(gs)))\n"
+            "if sys.argv[2] == 'rev': order.reverse()\n"
+            "res = {}\n"
+            "for k in order:\n"
+            "    g = gs[k]\n"
             "    g['transition_list']=[[tuple(t) for t in r] for r in g['transition_list']]\n"
             "    for p in (True, False):\n"
-            "        try:\n            out.append(repr(StochasticGame(**g, prune_states=p).solve()))\n"
-            "        except Exception as e:\n            out.append(type(e).__name__)\n"
+            "        try:\n            res[(k, p)] = repr(StochasticGame(**g, prune_states=p).solve())\n"
+            "        except Exception as e:\n            res[(k, p)] = type(e).__name__\n"
+            "for k in range(len(gs)):\n    out += [res[(k, True)], res[(k, False)]]\n"
             "print(json.dumps(out))\n") % REPO
     with tempfile.NamedTemporaryFile("w", suffix=".json", delete=False) as f:
         json.dump([gen.desc(g) for g in games], f)
         path = f.name
     try:
         outs = []
-        for hs in ("1", "2", "3", "123"):
-            p = subprocess.run([sys.executable, "-c", prog, path], capture_output=True, text=True, timeout=120,
+        for hs, order in (("1", "fwd"), ("2", "rev"), ("3", "fwd"), ("123", "rev")):
+            # different string-hash seeds AND different orders of solving the games in the process
+            p = subprocess.run([sys.executable, "-c", prog, path, order], capture_output=True, text=True, timeout=120,
                                env=dict(os.environ, PYTHONHASHSEED=hs, PYTHONDONTWRITEBYTECODE="1"))
             outs.append(p.stdout.strip().split("\n")[-1] if p.returncode == 0 else "rc=%d %s" % (p.returncode, p.stderr[-200:]))
     finally:
